@@ -1081,6 +1081,7 @@ func (root *Root) Resolve(field *Field, args map[string]interface{}) (result int
 
 func (root *Root) subscribe(sub *Subscription) {
 	sub.prep(root)
+	verifYield("subscribe")
 	root.subLock.Lock()
 	root.subscriptions = append(root.subscriptions, sub)
 	root.subLock.Unlock()
@@ -1088,6 +1089,7 @@ func (root *Root) subscribe(sub *Subscription) {
 
 // Unsubscribe from an event stream.
 func (root *Root) Unsubscribe(id string) (cnt int) {
+	verifYield("unsubscribe")
 	root.subLock.Lock()
 	for i := len(root.subscriptions) - 1; 0 <= i; i-- {
 		s := root.subscriptions[i]
@@ -1109,6 +1111,7 @@ func (root *Root) AddEvent(id string, event interface{}) (cnt int, err error) {
 	vars := map[string]interface{}{}
 	var ea []error
 	var failed []*Subscription
+	verifYield("addevent1")
 	root.subLock.Lock()
 	for _, s := range root.subscriptions {
 		if s.sub.Match(id) {
@@ -1125,6 +1128,7 @@ func (root *Root) AddEvent(id string, event interface{}) (cnt int, err error) {
 	if 0 < len(ea) {
 		err = Errors(ea)
 	}
+	verifYield("addevent2")
 	root.subLock.Lock()
 	for _, f := range failed {
 		for i := len(root.subscriptions) - 1; 0 <= i; i-- {
